@@ -98,6 +98,18 @@ def main():
                     meta = json.load(open(mp))
                 except Exception:  # noqa: BLE001
                     meta = {"raw": open(mp).read()}
+            # a re-evaluation after strengthening keeps what the earlier confirmation recorded (test-suite result,
+            # verdicts of the first run) instead of overwriting it
+            old_mp = os.path.join(dst, "meta.json")
+            if os.path.exists(old_mp):
+                try:
+                    old = json.load(open(old_mp)).get("confirmed_by_us", {})
+                except Exception:  # noqa: BLE001
+                    old = {}
+                if "tests" in old and "tests" not in report:
+                    report["tests"], report["tests_exit"] = old["tests"], old.get("tests_exit")
+                earlier = [dict(r, note=r.get("note", "earlier run (before the strengthening this seed triggered)")) for r in old.get("ran", [])]
+                report["ran"] = earlier + report["ran"]
             meta.update({"property": a.pid, "confirmed_by_us": report})
             json.dump(meta, open(os.path.join(dst, "meta.json"), "w"), indent=1)
         print(json.dumps(report, indent=1))
